@@ -58,10 +58,17 @@ def main():
             mod.run(chk)
         return chk.finish()
     except common.Broken as exc:
+        if chk.violations:
+            # a violation with a replay was already established before a later part of the check broke: report it
+            chk.notes.append("a later part of the check broke: %s" % str(exc)[:300])
+            return chk.finish()
         print("CHECK-BROKEN %s: %s" % (args.prop, exc))
         return 2
     except Exception:  # noqa
         traceback.print_exc()
+        if chk.violations:
+            chk.notes.append("a later part of the check raised an exception")
+            return chk.finish()
         print("CHECK-BROKEN %s: harness exception" % args.prop)
         return 2
 
